@@ -895,6 +895,18 @@ pub fn build(full_name: &str, level: u8) -> Option<Scenario> {
                     Action::HoldApply(false),
                 ];
             }
+            if n.contains("-a1") {
+                // only the leader persists asynchronously; one auto-leave joint change: the
+                // leave-joint entry is appended by the leader itself when it applies the enter
+                for (k, nd) in s.nodes.iter_mut().enumerate() {
+                    nd.mode = if k == 0 { AppMode::Async } else { AppMode::Sync };
+                    nd.apply_lag = false;
+                }
+                s.cc_menu = vec![CcSpec::V2(0, vec![(0, 4), (1, 3)])];
+                s.clients_at = vec![1];
+                s.timeoutable = vec![];
+                s.crashable = vec![];
+            }
             if n.contains("-promo") {
                 // voters {1}, learner {2}, check_quorum: leader 1 promoted node 2 (committed and
                 // applied on its own); node 2 holds the entry but never learnt that it is
@@ -986,6 +998,7 @@ pub fn build(full_name: &str, level: u8) -> Option<Scenario> {
                 s.transfer_targets = vec![2];
             }
             let (ccs, props, to, crashes, mt, mi, xf, lazy) = match l {
+                0 | 1 if n.contains("-a1") => (1, l as u8, 0, 0, 2, 6, 0, 1),
                 0 if n.contains("-fresh") => (0, 0, 1, 1, 3, 6, 0, 1),
                 1 if n.contains("-fresh") => (0, 1, 1, 1, 3, 7, 0, 1),
                 0 | 1 if n.contains("-promo") => (0, 0, 0, 0, 3, 6, 0, 1),
